@@ -176,6 +176,8 @@ def fits_bounded_instance(tied_only=False):
         rng = np.random.RandomState(inp['seed'])
         which, K, it = inp['which'], inp['K'], inp['it']
         F, N, D = 2, 30, 3
+        if inp['seed'] % 3 == 0:
+            F = K                # as many independent problems as classes: a class axis mistaken for the leading axis broadcasts
         cplx = not (which.startswith('gmm') or which == 'vmfmm')
         tied = which == 'cbmm-tied'
         if tied:
@@ -193,6 +195,8 @@ def fits_bounded_instance(tied_only=False):
             init[:, 1] = init[:, 0] * (1 + 10.0 ** rng.uniform(-6, -3) * rng.normal(size=init[:, 0].shape))
             init /= init.sum(-2, keepdims=True)
         perm = rng.permutation(K)
+        if K > 1 and np.array_equal(perm, np.arange(K)):
+            perm = np.roll(perm, 1)            # never the identity
         mask = rng.rand(F, K, N) < 0.9
         mask[:, :, 0] = True
         if inp['seed'] % 2:
